@@ -33,7 +33,12 @@ fn gen_mat(g: i64) -> M4 {
         14 => k(5.0, orient_z(vec3(0.0, 0.6, 0.8), vec3(1.0, 0.0, 0.0))),
         // reference directions that are not perpendicular to the new axis
         15 => k(5.0, orient_y(vec3(0.6, 0.8, 0.0), vec3(1.0, 0.0, 0.0))),
-        _ => k(5.0, orient_z(vec3(0.0, 0.6, 0.8), vec3(0.0, 1.0, 0.0))),
+        16 => k(5.0, orient_z(vec3(0.0, 0.6, 0.8), vec3(0.0, 1.0, 0.0))),
+        // negative and more-than-full multiples of a quarter turn
+        17 => rotate_x(degs(-270.0)),
+        18 => rotate_y(degs(-180.0)),
+        19 => rotate_z(degs(-540.0)),
+        _ => k(5.0, M4::from_basis(vec3(1.0, 0.0, 0.0), vec3(0.0, 1.0, 0.0), vec3(0.6, 0.0, 0.8))),
     }
 }
 
@@ -65,8 +70,11 @@ pub fn exec(case: &Value) -> Value {
         // gets small although the transform is as well conditioned as before; observations
         // are scaled back (exactly) to the integers of the specification
         let gs = case.get("gs").and_then(|v| v.as_i64()).unwrap_or(0) as i32;
-        let u = 2f32.powi(gs);
-        if gs != 0 {
+        // gd: a further division by a small integer (5: undoes the hypotenuse folded into the Pythagorean
+        // generators, so that the matrix handed to inverse() has unit-length columns again)
+        let gd = case.get("gd").and_then(|v| v.as_i64()).unwrap_or(1) as f32;
+        let u = 2f32.powi(gs) * gd;
+        if gs != 0 || gd != 1.0 {
             let shrink: M4 = scale(splat(1.0 / u));
             m = shrink.compose(&m);
             m2 = m2.then(&shrink);
@@ -77,7 +85,7 @@ pub fn exec(case: &Value) -> Value {
         let pts: Vec<Vec<i64>> = probes.iter().map(|p| { let q = m.apply_pt(&pt3(p[0], p[1], p[2])); vec![s(q.x()), s(q.y()), s(q.z())] }).collect();
         let vecs: Vec<Vec<i64>> = probes.iter().map(|p| { let q = m.apply(&vec3(p[0], p[1], p[2])); vec![s(q.x()), s(q.y()), s(q.z())] }).collect();
         let hasdet = path.len() <= 2;
-        let isrot = path.iter().all(|st| (5..=8).contains(&st[0].as_i64().unwrap()));
+        let isrot = path.iter().all(|st| { let g = st[0].as_i64().unwrap(); (5..=8).contains(&g) || (17..=19).contains(&g) });
         let mut o = json!({"m": rows(&m), "m2": rows(&m2), "pts": pts, "vecs": vecs, "hasdet": hasdet as u8, "isrot": isrot as u8});
         if hasdet || isrot {
             let inv = m.inverse();
@@ -127,7 +135,7 @@ pub fn gen(args: &Args, out: &mut dyn Write) {
         let len = rng.range(1, 3);
         let rot = i % 5 == 0;
         let path: Vec<Value> = (0..len)
-            .map(|_| json!([if rot { rng.range(5, 8) } else { rng.range(1, 16) }, if rng.chance(1, 2) { "L" } else { "R" }]))
+            .map(|_| json!([if rot { *rng.pick(&[5i64, 6, 7, 8, 17, 18, 19]) } else { rng.range(1, 20) }, if rng.chance(1, 2) { "L" } else { "R" }]))
             .collect();
         writeln!(out, "{}", json!({"k": format!("m{}-{}", args.seed, i), "path": path, "gs": if i % 3 == 2 { 7 } else { 0 }})).unwrap();
     }
